@@ -277,9 +277,65 @@ func (c *Ctx) methodOf(T types.Type, name string) *ssa.Function {
 				}
 			}
 		}
+		if name == "Len" {
+			fn = delegateOf(fn)
+		}
 		return fn
 	}
 	return nil
+}
+
+// methodOfRaw: like methodOf, without following delegations.
+func (c *Ctx) methodOfRaw(T types.Type, name string) *ssa.Function {
+	ms := c.P.SSA.MethodSets.MethodSet(T)
+	for i := 0; i < ms.Len(); i++ {
+		if ms.At(i).Obj().Name() != name {
+			continue
+		}
+		fn := c.P.SSA.MethodValue(ms.At(i))
+		if fn != nil && fn.Synthetic != "" {
+			if obj, ok := ms.At(i).Obj().(*types.Func); ok {
+				if d := c.P.SSA.FuncValue(obj); d != nil {
+					fn = d
+				}
+			}
+		}
+		return fn
+	}
+	return nil
+}
+
+// delegateOf: when f does nothing but return g(receiver) for another method g of the same receiver, the facts
+// about f's result are the facts about g's (Len() { return x.encodedLen() }).
+func delegateOf(f *ssa.Function) *ssa.Function {
+	for i := 0; i < 2 && f != nil && f.Blocks != nil && len(f.Blocks) == 1 && len(f.Params) == 1; i++ {
+		rv := singleReturn(f)
+		call, ok := rv.(*ssa.Call)
+		if !ok || call.Call.IsInvoke() || len(call.Call.Args) != 1 {
+			return f
+		}
+		g := flow.StaticCallee(call)
+		if g == nil || g.Blocks == nil || g.Signature.Recv() == nil || len(g.Params) != 1 {
+			return f
+		}
+		// the argument is the receiver itself (possibly spilled and reloaded)
+		a := flow.Peel(call.Call.Args[0])
+		if a != ssa.Value(f.Params[0]) {
+			if u, isU := a.(*ssa.UnOp); !isU || spilledParam(u) != f.Params[0] {
+				return f
+			}
+		}
+		// nothing else happens in f
+		for _, in := range f.Blocks[0].Instrs {
+			switch in.(type) {
+			case *ssa.Call, *ssa.Return, *ssa.Alloc, *ssa.Store, *ssa.UnOp, *ssa.DebugRef:
+			default:
+				return f
+			}
+		}
+		f = g
+	}
+	return f
 }
 
 // singleReturn: the unique return value (result 0) of g, or nil.
@@ -407,6 +463,15 @@ func (c *Ctx) padFacts(tf *typeFacts, padF *ssa.Function) {
 			default:
 				tf.PadIsRound = true
 			}
+		} else if ok, x, why := c.padOfLen(rv, padF); ok {
+			// a helper computing the padding of a length: evaluated as a whole, exact for all lengths
+			if lenExprOf(x, ssa.Value(padF.Params[0])) != "len(recv)" || tf.LenDyn != "len(recv)" {
+				tf.PadWhy = "Padding() pads a length other than the one Len() reports"
+			} else {
+				tf.PadIsRound = true
+			}
+		} else if why != "" {
+			tf.PadWhy = why
 		} else {
 			tf.PadWhy = "padding is neither a constant nor roundup4(x) − x"
 		}
@@ -616,3 +681,38 @@ func isZeroWord(w lanes.Word) bool {
 }
 
 var _ = constant.MakeInt64
+
+// padOfLen: rv (the value Padding returns) equals round-up-4(x) − x for x = some len(...) expression of padF,
+// decided in the congruence domain for all x ≥ 0 with package-level helpers followed. Returns x.
+func (c *Ctx) padOfLen(rv ssa.Value, padF *ssa.Function) (bool, ssa.Value, string) {
+	var lens []ssa.Value
+	flow.Instrs(padF, func(in ssa.Instruction) {
+		if call, ok := in.(*ssa.Call); ok {
+			if _, isLen := builtinOf(call, "len"); isLen {
+				lens = append(lens, call)
+			}
+		}
+	})
+	why := ""
+	for _, x := range lens {
+		x := x
+		env := &cong.Env{MaxDepth: 4, IsSym: func(s ssa.Value) bool { return s == x },
+			Callee: func(call *ssa.Call) *ssa.Function {
+				g := flow.StaticCallee(call)
+				if g == nil || g.Signature.Recv() != nil {
+					return nil
+				}
+				return g
+			}}
+		cv, err := env.Eval(rv)
+		if err != nil {
+			why = "padding expression not analysable: " + err.Why
+			continue
+		}
+		if !cv.Div4 && cv.K == 0 && cv.T == [4]int64{0, 3, 2, 1} {
+			return true, x, ""
+		}
+		why = fmt.Sprintf("Padding() = %s as a function of the length, which is not round-up-to-4 of it minus it", cv)
+	}
+	return false, nil, why
+}
